@@ -319,6 +319,11 @@ static void *vfork_thread(void *arg) {
   return NULL;
 }
 
+static void *burn_thread(void *arg) {
+  *(long *)arg = syscall(SYS_gettid);
+  return NULL;
+}
+
 static void cmd_mkthread(const char *kind) {
   int k = !strcmp(kind, "spin") ? 0 : !strcmp(kind, "block") ? 1 : !strcmp(kind, "count") ? 2 : -1;
   if (k < 0) return reply("err kind");
@@ -576,6 +581,15 @@ int main(int argc, char **argv) {
       int more[] = {SIGHUP, SIGINT, SIGQUIT, SIGABRT, SIGUSR1, SIGUSR2, SIGPIPE, SIGALRM, SIGTERM, SIGSTKFLT};
       for (unsigned i = 0; i < sizeof more / sizeof more[0]; i++) sigaction(more[i], &sa2, NULL);
       reply("ok");
+    } else if (!strcmp(cmd, "burn_tids")) {
+      // burn_tids <n>: create and join n short-lived threads (moves the kernel's pid counter); replies the last tid seen
+      long n = strtol(a1, NULL, 0), last = 0;
+      for (long i = 0; i < n; i++) {
+        pthread_t th;
+        if (pthread_create(&th, NULL, burn_thread, &last)) break;
+        pthread_join(th, NULL);
+      }
+      reply("ok %ld", last);
     } else if (!strcmp(cmd, "newpgrp")) {
       // own process group (not orphaned: the parent sits in another group of the same session), so that
       // job-control stop signals (SIGTSTP ...) are not ignored
